@@ -60,6 +60,11 @@ type c12Scenario struct {
 	priorVals                            []uint64
 	priorForm                            []int // 0 nil unlocking script, 1 empty non-nil, 2 already signed
 	transit                              bool  // starting tx went through an extended-format round trip
+	lockTime, version                    uint32
+	refund                               bool // Fund is called a second time on the same object after an in-place edit
+	editKind, editIdx                    int
+	resps2                               []c12Resp
+	huge                                 bool // quota: the input count crosses 65535 -> 65536 during Fund
 	outs                                 []c12Out
 	resps                                []c12Resp
 	seedBytes                            []byte
@@ -71,7 +76,7 @@ type c12Out struct {
 }
 
 func (s *c12Scenario) build() (*bt.Tx, *bt.FeeQuote) {
-	tx := &bt.Tx{Version: 1}
+	tx := &bt.Tx{Version: s.version, LockTime: s.lockTime}
 	for i, v := range s.priorVals {
 		in := &bt.Input{PreviousTxOutIndex: uint32(i), PreviousTxSatoshis: v, PreviousTxScript: scriptPtr(p2pkh(s.h20(100 + i))), SequenceNumber: 0xfffffffe}
 		_ = in.PreviousTxIDAdd(s.txid(100 + i))
@@ -151,6 +156,20 @@ func genC12(c *kernel.RunCtx) *c12Scenario {
 		c.End()
 	}
 	s.transit = c.Bool(1, 5)
+	s.version = 1
+	if c.Bool(1, 3) {
+		s.version, s.lockTime = []uint32{2, 0xffffffff}[c.Choose(2)], uint32(1+c.Choose(700000))
+	}
+	if c.RunIdx%1499 == 11 && !many {
+		// quota: 65 53x prior inputs, so that funding crosses the 3 -> 5 byte input-count boundary
+		s.huge = true
+		s.transit = false
+		for len(s.priorVals) < 65531+c.Choose(4) {
+			s.priorVals = append(s.priorVals, 1)
+			s.priorForm = append(s.priorForm, 0)
+		}
+		c.Count("probe.input_count_near_65536", 1)
+	}
 	no := c.Range(0, 6)
 	if c.Bool(1, 40) {
 		no = []int{252, 253}[c.Choose(2)]
@@ -188,6 +207,17 @@ func genC12(c *kernel.RunCtx) *c12Scenario {
 		c.End()
 	}
 	c.End()
+	c.Begin("second-fund")
+	s.refund = c.Bool(1, 3) && !s.huge
+	s.editKind, s.editIdx = c.Choose(3), c.Choose(1000)
+	for i, n := 0, 1+c.Choose(3); i < n; i++ {
+		s.resps2 = append(s.resps2, c12Resp{kind: c.Pick(4, 4, 2, 1, 3), n: 1 + c.Choose(3), aux: c.U64n(1 << 16)})
+	}
+	c.End()
+	if s.huge {
+		// a couple of small batches, tightly funded, to walk across the boundary
+		s.resps = []c12Resp{{kind: 1, n: 3}, {kind: 4, n: 2, aux: 1}, {kind: 1, n: 2}, {kind: 0, n: 1}}
+	}
 	return s
 }
 
@@ -389,6 +419,10 @@ func (p *c12Supplier) next(ctx context.Context, deficit uint64) ([]*bt.UTXO, err
 func (w *c12World) Run(c *kernel.RunCtx) {
 	s := genC12(c)
 	k := len(s.resps)
+	if s.huge {
+		w.one(c, s, s.resps, "none") // one execution only: each estimate serialises ~10 MB
+		return
+	}
 	// fault positions: 0 = none; 1..k+1 = exhaustion at call i; k+2..2k+2 = error at call i; then cancellation at call i
 	c.Enumerate("fault", 1+3*(k+1), func(f int) {
 		resps := append([]c12Resp(nil), s.resps...)
@@ -409,6 +443,27 @@ func (w *c12World) Run(c *kernel.RunCtx) {
 func (w *c12World) one(c *kernel.RunCtx, s *c12Scenario, resps []c12Resp, fname string) {
 	tx, fq := s.build()
 	model, _ := s.build()
+	w.fundPhase(c, s, tx, model, fq, resps, fname)
+	if c.Failed() || !s.refund {
+		return
+	}
+	// second phase on the SAME objects: an in-place edit that keeps every count, then Fund again
+	c.Count("probe.refund_after_inplace_edit", 1)
+	for _, t := range []*bt.Tx{tx, model} {
+		switch {
+		case s.editKind == 0 && len(t.Outputs) > 0:
+			o := t.Outputs[s.editIdx%len(t.Outputs)]
+			o.LockingScript = scriptPtr(append(append([]byte(nil), *o.LockingScript...), make([]byte, 40+s.editIdx%200)...))
+		case s.editKind == 1 && len(t.Outputs) > 0:
+			t.Outputs[s.editIdx%len(t.Outputs)].Satoshis += uint64(1000 + s.editIdx)
+		default:
+			t.AddOutput(&bt.Output{Satoshis: uint64(500 + s.editIdx), LockingScript: scriptPtr(p2pkh(s.h20(77)))})
+		}
+	}
+	w.fundPhase(c, s, tx, model, fq, s.resps2, fname+"+second-fund")
+}
+
+func (w *c12World) fundPhase(c *kernel.RunCtx, s *c12Scenario, tx, model *bt.Tx, fq *bt.FeeQuote, resps []c12Resp, fname string) {
 	token := new(int)
 	ctx, cancel := context.WithCancel(context.WithValue(context.Background(), ctxKey{}, token))
 	defer cancel()
@@ -456,6 +511,9 @@ func (w *c12World) one(c *kernel.RunCtx, s *c12Scenario, resps []c12Resp, fname 
 	}
 	if len(s.priorVals) < 253 && len(model.Inputs) >= 253 {
 		c.Count("probe.input_count_crossed_253", 1)
+	}
+	if len(s.priorVals) < 65536 && len(model.Inputs) >= 65536 {
+		c.Count("probe.input_count_crossed_65536", 1)
 	}
 	if s.transit && len(s.priorVals) > 0 {
 		c.Count("probe.prior_inputs_round_tripped", 1)
@@ -514,10 +572,7 @@ func (w *c12World) one(c *kernel.RunCtx, s *c12Scenario, resps []c12Resp, fname 
 					c.Fail("inputs", site, "prior input %d was replaced", i)
 					return
 				}
-				wantSeq := uint32(0xffffffff)
-				if i < len(priorPtrs) {
-					wantSeq = 0xfffffffe
-				}
+				wantSeq := m.SequenceNumber // 0xfffffffe for the scenario's prior inputs, final for everything funded
 				if !sameBytes(in.PreviousTxID(), m.PreviousTxID()) || in.PreviousTxOutIndex != m.PreviousTxOutIndex ||
 					in.PreviousTxSatoshis != m.PreviousTxSatoshis || !sameBytes(scriptBytes(in.PreviousTxScript), scriptBytes(m.PreviousTxScript)) || in.SequenceNumber != wantSeq {
 					c.Fail("inputs", site, "input %d differs from what the supplier returned: got %x:%d %d sat seq %x script %x, want %x:%d %d sat seq %x script %x", i,
